@@ -339,8 +339,7 @@ Definition make_grid (body : layer) (r : rect) : res layer :=
           if in_range lf rg x && in_range tp bt y && nth x vcols false then grid_col_char tp bt y c else c))
   else Panic.
 
-Definition scan (text : list N) : res canvas :=
-  let (txt, blank) := scan_layers text in
+Definition scan_from (txt blank : layer) : res canvas :=
   name <- recognize_information_item_name txt ;;
   ' (cross, horz, vert) <- recognize_crossings txt ;;
   r <- recognize_body_rect txt ;;
@@ -349,6 +348,8 @@ Definition scan (text : list N) : res canvas :=
   grid <- make_grid body r ;;
   Ok {| cv_text := txt; cv_thin := thin; cv_body := body; cv_grid := grid;
         cv_cross := cross; cv_horz := horz; cv_vert := vert; cv_name := name; cv_rect := r |}.
+Definition scan (text : list N) : res canvas :=
+  let (txt, blank) := scan_layers text in scan_from txt blank.
 
 (* ---------------- Canvas::plane ---------------- *)
 Inductive ccell :=
